@@ -35,7 +35,7 @@ def build(rng, enz):
         n = len(wd)
         # some inputs are documented: a reference list, and features citing it (a citation is a qualifier like any
         # other: in the product it must still designate the same paper)
-        refs = [100 + rng.randrange(12) for _ in range(rng.choice([0, 0, 1, 2, 3]))]
+        refs = [100 + rng.randrange(20) for _ in range(rng.choice([0, 0, 1, 2, 3, 5]))]
         refs = list(dict.fromkeys(refs))
         feats = gen.gen_features(rng, n, rng.choice([0, 2, 4, 6]), allow_cites=len(refs))
         # partial `source`-typed features are what the library itself generates for every fragment, so any
